@@ -11,10 +11,10 @@
    [complete_in rs p k] k = number of records of [file_of rs] lying wholly inside its prefix p *)
 From Coq Require Import ZArith List Bool.
 From PTK Require Import Lib.Sx Lib.Py Model.C13_Utf8 Model.C13_HistFile Model.C13_Threaded
-  Model.C13_ThreadedF2 Model.C13_ThreadedF3 Model.C13_ThreadedLate Model.C13_Inline
+  Model.C13_ThreadedF2 Model.C13_ThreadedF3 Model.C13_ThreadedLate Model.C13_Inline Model.C13_ThreadedEv
   Proofs.C13_Utf8Facts Proofs.C13_HistFileFacts Proofs.C13_ThreadedFacts
   Proofs.C13_ThreadedF2Facts Proofs.C13_ThreadedF3Facts Proofs.C13_ThreadedLateFacts
-  Proofs.C13_ComposeFacts Proofs.C13_InlineFacts.
+  Proofs.C13_ComposeFacts Proofs.C13_InlineFacts Proofs.C13_ThreadedEvFacts.
 Import ListNotations.
 Open Scope Z_scope.
 
@@ -135,8 +135,10 @@ Theorem C13_threaded_no_duplicates : forall S0 sched c,
 Proof. exact threaded_no_duplicates. Qed.
 Print Assumptions C13_threaded_no_duplicates.
 
-(* Progress, for every schedule at all: give the loader its remaining steps
-   and one read, and an unfinished consumer finishes. *)
+(* Progress in the model where a read may happen at any time (a SUPERSET of the
+   real schedules: a real read needs its event set): give the loader its
+   remaining steps and one read, and an unfinished consumer finishes.  That the
+   read is really enabled - the event set - is C13_threaded_wakeup below. *)
 Theorem C13_threaded_consumer_finishes : forall S0 sched i c,
   let st := trun (tinit S0) sched in
   nth_error (t_cons st) i = Some c -> c_fin c = false ->
@@ -257,9 +259,11 @@ Print Assumptions C13_threaded_window_fixed_f3.
 (* A torn file under a threaded load, one statement (C13_torn o
    C13_threaded_over_file): cut the file at ANY byte, run the threaded system
    over those bytes under any covered schedule that stores nothing before the
-   loader has read the file: every finished load() yields what was appended
-   before it started, then at most one damaged string, then the k completed
-   entries intact and in order. *)
+   loader has read the file: every finished load() yields [rev tail], then at
+   most one damaged string, then the k completed entries intact and in order,
+   where [tail] is exactly what followed S0 in [c_start c] (= the storage plus
+   the string being stored when that load() started, a ghost field set by
+   CStart): the strings appended before it started, in order, each once. *)
 Theorem C13_torn_threaded : forall (ts_of : str -> bytes),
   (forall s, nolf (ts_of s)) ->
   forall rs0 p sfx sched,
@@ -270,7 +274,7 @@ Theorem C13_torn_threaded : forall (ts_of : str -> bytes),
     (p = file_of (firstn k rs0) -> d = []) /\
     fst (crun ts_of (tinit S0, p) sched) = trun (tinit S0) sched /\
     forall c, In c (t_cons (trun (tinit S0) sched)) -> c_fin c = true ->
-      exists tail, c_out c = rev tail ++ d ++ rev (firstn k (map snd rs0)).
+      exists tail, c_start c = S0 ++ tail /\ c_out c = rev tail ++ d ++ rev (firstn k (map snd rs0)).
 Proof. exact torn_threaded. Qed.
 Print Assumptions C13_torn_threaded.
 
@@ -309,6 +313,51 @@ Theorem C13_inline_fixed_exactly_once : forall S0 sched,
   pre (i_out st) (rev S0) /\ (i_done st = true -> i_out st = rev S0).
 Proof. exact inline_fixed_exactly_once. Qed.
 Print Assumptions C13_inline_fixed_exactly_once.
+
+(* The loader's event loops statement by statement (Model/C13_ThreadedEv.v: one
+   event.set() call = one step, the loop runs over the copy taken at its start,
+   consumers finish / register in between).  Safety as before ... *)
+Theorem C13_ev_exactly_once : forall S0 sched c,
+  eok_sched (einit S0) sched = true ->
+  let st := e_st (erun (einit S0) sched) in
+  In c (t_cons st) ->
+  (c_fin c = true -> c_out c = rev (c_start c)) /\
+  (c_fin c = false -> pre (c_out c) (rev (c_start c))) /\
+  (t_loaded st = true -> t_ls st = rev (t_store st ++ t_fly st)).
+Proof. exact ev_exactly_once. Qed.
+Print Assumptions C13_ev_exactly_once.
+
+(* ... and nobody is left asleep: in EVERY reachable state of that system, once
+   the loader thread is through (flag set, last loop over), every load() that
+   has not finished has its event set - its read is enabled - and that read
+   finishes it. *)
+Theorem C13_threaded_wakeup : forall S0 sched i c,
+  let es := erun (einit S0) sched in
+  t_ph (e_st es) = P4 -> e_loop es = None ->
+  nth_error (t_cons (e_st es)) i = Some c -> c_fin c = false ->
+  c_ev c = true /\ c_fin (read (e_st es) c) = true.
+Proof. exact wakeup. Qed.
+Print Assumptions C13_threaded_wakeup.
+
+(* The code before fixes/C13-set-events-over-copy.patch iterated the LIVE list
+   ([psub]): a load() that finishes during the loader's final loop shifts the
+   list under the iterator, the next event is skipped, and that load() waits
+   for ever although the loader is through (finding C13-F4, [skip_sched]). *)
+Theorem C13_threaded_wakeup_pinned_refuted :
+  ~ (forall S0 sched i c,
+       let ps := prun (pinit S0) sched in
+       t_ph (p_st ps) = P4 -> p_cur ps = None ->
+       nth_error (t_cons (p_st ps)) i = Some c -> c_fin c = false -> c_ev c = true).
+Proof. exact wakeup_pinned_refuted. Qed.
+Print Assumptions C13_threaded_wakeup_pinned_refuted.
+
+Theorem C13_skip_sched_patched :
+  e_loop (erun (einit [sa]) skip_sched) = Some [1%nat] /\
+  let es := erun (einit [sa]) (skip_sched ++ [ESub]) in
+  t_ph (e_st es) = P4 /\ e_loop es = None /\
+  map c_ev (t_cons (e_st es)) = [false; true] /\ map c_fin (t_cons (e_st es)) = [true; false].
+Proof. exact skip_sched_patched. Qed.
+Print Assumptions C13_skip_sched_patched.
 
 (* Non-vacuity. *)
 Example C13_valid_rec_somewhere :
